@@ -146,18 +146,85 @@ def count_projected(clauses, nv, ind, xors=()):
         return popcount(project(bits, len(order), len(ind)))
     if xors:
         raise ValueError("xor clauses only supported in the bit-parallel range")
-    # enumerate over ind with DPLL extension checks
-    count = 0
-    cls = [list(c) for c in clauses]
-    while True:
-        m = dpll(cls, prefer=ind)
-        if m is None:
-            return count
-        count += 1
-        block = [(-v if m.get(v, False) else v) for v in ind]
-        if not block:
-            return count
-        cls.append(block)
+    return popcount(sat_over(clauses, ind))
+
+
+def sat_over(clauses, ind):
+    """Bitset over the 2^|ind| assignments of ``ind`` that extend to a model.
+
+    DPLL carried out bit-parallel across all assignments of ``ind`` at once:
+    T[v]/F[v] are the sets of ind-assignments under which v is forced true/false.
+    Exact for any clause list; needs no branching when the remaining variables
+    are functionally determined (Tseitin encodings of acyclic circuits).
+    """
+    k = len(ind)
+    mask = (1 << (1 << k)) - 1
+    T, F = {}, {}
+    for i, v in enumerate(ind):
+        b = var_bits(i, k)
+        T[v], F[v] = b, b ^ mask
+    allv = {abs(l) for c in clauses for l in c}
+    for v in allv:
+        if v not in T:
+            T[v], F[v] = 0, 0
+    cls = [list(dict.fromkeys(c)) for c in clauses]
+
+    def solve(T, F, live):
+        """live: ind-assignments still under consideration. Returns satisfiable subset."""
+        T, F = dict(T), dict(F)
+        changed = True
+        while changed and live:
+            changed = False
+            for c in cls:
+                n = len(c)
+                fl = [(F[l] if l > 0 else T[-l]) for l in c]
+                # prefix/suffix ANDs of "literal is false"
+                pre = [mask] * (n + 1)
+                for i in range(n):
+                    pre[i + 1] = pre[i] & fl[i]
+                allf = pre[n] & live
+                if allf:
+                    live &= ~allf
+                    changed = True
+                suf = mask
+                for i in range(n - 1, -1, -1):
+                    others = pre[i] & suf & live
+                    suf &= fl[i]
+                    if others:
+                        l = c[i]
+                        if l > 0:
+                            new = others & ~T[l]
+                            if new:
+                                T[l] |= new
+                                changed = True
+                        else:
+                            new = others & ~F[-l]
+                            if new:
+                                F[-l] |= new
+                                changed = True
+                # a variable forced both ways is a conflict for those assignments
+            for v in allv:
+                both = T[v] & F[v] & live
+                if both:
+                    live &= ~both
+                    changed = True
+        if not live:
+            return 0
+        for v in allv:
+            und = live & ~(T[v] | F[v])
+            if und:
+                # split on v for the undetermined assignments only
+                done = live & ~und
+                T1 = dict(T)
+                T1[v] = T[v] | und
+                F0 = dict(F)
+                F0[v] = F[v] | und
+                r = solve(T1, F, und) | solve(T, F0, und)
+                # assignments already determined for v may still be undetermined elsewhere
+                return r | (solve(T, F, done) if done else 0)
+        return live
+
+    return solve(T, F, mask)
 
 
 def selftest(rng):
@@ -194,4 +261,6 @@ def selftest(rng):
                 seen.add(idx & ((1 << keep) - 1))
         assert popcount(pj) == len(seen)
         assert count_projected(cls, nv, order[:keep]) == len(seen)
+        so = sat_over(cls, order[:keep])
+        assert so == sum(1 << i for i in seen), (cls, keep)
     return True
